@@ -1136,7 +1136,15 @@ fn reg_run<D: Distance<Vec<f64>, f64>>(c: &mut Case, inp: &EstInput, dist: D) {
     let what = "regressor";
     let x = DenseMatrix::from_2d_vec(&inp.rows);
     let xq = DenseMatrix::from_2d_vec(&inp.queries);
-    let params = KNNRegressorParameters::<f64, Euclidian>::default().with_distance(dist.clone()).with_k(inp.k).with_algorithm(inp.algo.to_name()).with_weight(inp.weight.lib());
+    // the builder steps are applied in a drawn order: the configured value of every setting must survive
+    // whichever step comes last (with_distance rebuilds the parameter struct)
+    let params = match c.rng.below(4) {
+        0 => KNNRegressorParameters::<f64, Euclidian>::default().with_distance(dist.clone()).with_k(inp.k).with_algorithm(inp.algo.to_name()).with_weight(inp.weight.lib()),
+        1 => KNNRegressorParameters::<f64, Euclidian>::default().with_weight(inp.weight.lib()).with_k(inp.k).with_algorithm(inp.algo.to_name()).with_distance(dist.clone()),
+        2 => KNNRegressorParameters::<f64, Euclidian>::default().with_k(inp.k).with_distance(dist.clone()).with_weight(inp.weight.lib()).with_algorithm(inp.algo.to_name()),
+        _ => KNNRegressorParameters::<f64, Euclidian>::default().with_algorithm(inp.algo.to_name()).with_weight(inp.weight.lib()).with_distance(dist.clone()).with_k(inp.k),
+    };
+    c.bucket("builder-order-varied");
     let fit = match must_sig(c, "KNNRegressor::fit", |p| est_panic_sig(inp, what, p), || KNNRegressor::fit(&x, &inp.y, params)) {
         Some(r) => r,
         None => return,
@@ -1255,7 +1263,15 @@ fn cls_run<D: Distance<Vec<f64>, f64>>(c: &mut Case, inp: &EstInput, dist: D) {
     let what = "classifier";
     let x = DenseMatrix::from_2d_vec(&inp.rows);
     let xq = DenseMatrix::from_2d_vec(&inp.queries);
-    let params = KNNClassifierParameters::<f64, Euclidian>::default().with_distance(dist.clone()).with_k(inp.k).with_algorithm(inp.algo.to_name()).with_weight(inp.weight.lib());
+    // the builder steps are applied in a drawn order: the configured value of every setting must survive
+    // whichever step comes last (with_distance rebuilds the parameter struct)
+    let params = match c.rng.below(4) {
+        0 => KNNClassifierParameters::<f64, Euclidian>::default().with_distance(dist.clone()).with_k(inp.k).with_algorithm(inp.algo.to_name()).with_weight(inp.weight.lib()),
+        1 => KNNClassifierParameters::<f64, Euclidian>::default().with_weight(inp.weight.lib()).with_k(inp.k).with_algorithm(inp.algo.to_name()).with_distance(dist.clone()),
+        2 => KNNClassifierParameters::<f64, Euclidian>::default().with_k(inp.k).with_distance(dist.clone()).with_weight(inp.weight.lib()).with_algorithm(inp.algo.to_name()),
+        _ => KNNClassifierParameters::<f64, Euclidian>::default().with_algorithm(inp.algo.to_name()).with_weight(inp.weight.lib()).with_distance(dist.clone()).with_k(inp.k),
+    };
+    c.bucket("builder-order-varied");
     let fit = match must_sig(c, "KNNClassifier::fit", |p| est_panic_sig(inp, what, p), || KNNClassifier::fit(&x, &inp.y, params)) {
         Some(r) => r,
         None => return,
